@@ -4,7 +4,7 @@ from mc import core, det, domains, sse
 PROPERTY = 'C05'
 ENGINE = 'E1 bounded-exhaustive enumeration of ALL list-length profiles per (scheme, configuration point), grouped by the public size parameter'
 LEVEL = 'model_checking'
-DIRECTED_ADDITIONS = 'configuration sweep, full identifier-size axis, equal-N families at N = 600 / 1025 (3000), empty posting lists, Pi2Lev configurations beyond its guard'      # members added during the seeded-change campaign (DESIGN 7); counted under their own vacuity counters
+DIRECTED_ADDITIONS = 'hosts reporting 6 and 7 processors (child interpreters), configuration sweep, full identifier-size axis, equal-N families at N = 600 / 1025 (3000), empty posting lists, Pi2Lev configurations beyond its guard'      # members added during the seeded-change campaign (DESIGN 7); counted under their own vacuity counters
 
 NMAX = {'quick': 12, 'thorough': 16}
 
@@ -253,3 +253,10 @@ def replay(case, seed):
         for tname, what, lens in table_uniformity(name, cfg1, obj):
             r.v(PROPERTY, name, 'table-not-uniform', '%s-%s' % (tname.rstrip('0123456789'), what), dict(case, table=tname), 'one length', 'lengths %s' % lens)
     return r['violations']
+
+# a subset of the units is executed again in other environments (child interpreters): see core.run_variants
+ENV_VARIANTS = [{'name': 'cpu-count-6', 'env': {'VERIF_CPU_COUNT': '6'}}, {'name': 'cpu-count-7', 'env': {'VERIF_CPU_COUNT': '7'}}]
+
+def variant_units(tier, seed, name):
+    pred = lambda uid, p: uid.endswith('/base') or p.get('scheme') == 'CGKO06.SSE1'
+    return [u for u in units('quick', seed) if pred(u[0], u[1])]
